@@ -240,6 +240,14 @@ class Run(RunBase):
                     raise Violation(f"C06/shape-semantics/shapely_object[{raw['t']}]",
                                     f"{raw['t']} {_fmt(raw)}: exported geometry contains {list(p)} = {e}, the shape "
                                     f"denotes {t} there")
+        if raw["t"] == "rect":
+            # the corner points a rectangle reports are the corners of the l-by-w box at its pose
+            mine = sorted((round(x, 7), round(y, 7)) for x, y in geom.rect_corners(raw["l"], raw["w"], raw["c"], raw["o"]))
+            theirs = sorted({(round(float(x), 7), round(float(y), 7)) for x, y in np.asarray(shape.vertices)})
+            if len(theirs) != 4 or max(abs(a - b) for p, q in zip(mine, theirs) for a, b in zip(p, q)) > 1e-6:
+                raise Violation("C06/shape-semantics/vertices[rect]",
+                                f"rect {_fmt(raw)}: reported corner points {theirs} are not the corners of the box "
+                                f"{mine}")
         if raw["t"] == "circ" and geom.circle_export_scale() != 1.0:
             a, ea = float(shape.shapely_object.area), geom.shape_area(geom.exported(raw))
             if abs(a - ea) > 0.01 * ea:
@@ -315,7 +323,8 @@ class Run(RunBase):
         pts = [(987.0, -654.0)]
         for la in self.net.lanelets:
             c, l, r = la.center_vertices, la.left_vertices, la.right_vertices
-            for k in range(len(c) - 1):
+            nseg = len(c) - 1
+            for k in sorted({int(round(j * (nseg - 1) / 5.0)) for j in range(6)} if nseg > 6 else range(nseg)):
                 m = (c[k] + c[k + 1]) / 2
                 pts.append(tuple(m))
                 pts.append(tuple(m + 0.9 * ((l[k] + l[k + 1]) / 2 - m)))
@@ -583,13 +592,21 @@ class Run(RunBase):
         try:
             if via == "rotate_translate_local":
                 base = build.build_shape(op["shape"])
+                self._check_shape_semantics(base, geom.raw_shape(base))  # also fills the shape's lazy caches
+                base.rotate_translate_local(np.array([1.5, -2.5]), a)  # one shape, several placements (as the
+                # occupancies of one vehicle shape are made): an earlier placement must not leak into the next
                 shape = base.rotate_translate_local(np.array([float(pos[0]), float(pos[1])]), a)
             else:
                 t = np.array(op.get("d", [3.0, -2.0]), dtype=float)
                 c, sn = math.cos(-a), math.sin(-a)
                 q0 = [c * pos[0] - sn * pos[1] - t[0], sn * pos[0] + c * pos[1] - t[1]]
                 base = build.build_shape(gen._place(op["shape"], [float(q0[0]), float(q0[1])], op.get("ori0", 0.0)))
+                self._check_shape_semantics(base, geom.raw_shape(base))
                 shape = base.translate_rotate(t, a)
+            # deriving a shape must leave the shape it was derived from as it was
+            self._check_shape_semantics(base, geom.raw_shape(base))
+        except Violation:
+            raise
         except Exception as e:  # noqa
             raise Violation(f"C06/shape-transform-raised[{op['shape']['t']}]",
                             f"{via} of a {op['shape']['t']} raised {type(e).__name__}: {e}")
@@ -681,7 +698,7 @@ def _querier(rng, run, cfg):
             yield {"op": "q_shape", "lanelet": rng.pick(ids), "seg": rng.randrange(4), "t": rng.uniform(0.0, 1.0),
                    "off": rng.uniform(-2.5, 2.5),
                    "shape": gen.gen_shape(rng, cfg["shape_kinds"], scale=rng.choice([0.3, 1.0, 1.0, 3.0, 8.0])),
-                   "ori": rng.uniform(-3.1, 3.1),
+                   "ori": rng.choice([rng.uniform(-3.1, 3.1), rng.uniform(-3.1, 3.1), 0.0]),
                    "via": rng.choice([None, None, "translate_rotate", "rotate_translate_local"]),
                    "d": [rng.uniform(-40, 40), rng.uniform(-40, 40)], "ori0": rng.uniform(-3.1, 3.1)}
         else:
@@ -744,9 +761,17 @@ class C06(Property):
     def gen_universe(self, rng, cfg):
         ids = gen.IdAlloc(rng, 1, 400)
         lattice = rng.chance(0.25)
-        net = gen.gen_network(rng, rows=rng.randint(1, 3), cols=rng.randint(1, 3), ids=ids, signs=False, lights=False,
-                              intersections=False, stop_lines=False, overlap=rng.chance(0.6), types=False,
-                              lattice=lattice)
+        fine = (not lattice) and rng.chance(0.15)
+        if fine:
+            # a map in projected coordinates (tens of kilometres from the origin) whose curved lanelets are sampled every
+            # few centimetres: neighbouring vertices differ by less than any relative tolerance would keep apart
+            net = gen.gen_network(rng, rows=rng.randint(1, 2), cols=rng.randint(1, 2), ids=ids, signs=False,
+                                  lights=False, intersections=False, stop_lines=False, overlap=False, types=False,
+                                  curved=True, n_pts=rng.choice([80, 160]), far=1.0, far_range=(20000.0, 60000.0))
+        else:
+            net = gen.gen_network(rng, rows=rng.randint(1, 3), cols=rng.randint(1, 3), ids=ids, signs=False,
+                                  lights=False, intersections=False, stop_lines=False, overlap=rng.chance(0.6),
+                                  types=False, lattice=lattice)
         lanelets = {}
         for j, la in enumerate(net["lanelets"]):
             lanelets[f"l{j}"] = la
